@@ -152,6 +152,7 @@ class ArcRun:
         self.c = c
         self.family = c["kind"]
         self.queue = c["kind"] == "qarc"
+        self.alt = c["kind"] == "altarc"
         self.part = part = K.Part(c["adds"], c["nons"])
         self.inp = K.FakeNode("in", part, c["inp"])
         self.outp = K.FakeNode("out", part, c["outp"])
@@ -161,6 +162,11 @@ class ArcRun:
             self.a = getattr(arcs, cls)(**kw)
         elif cls == "QueueArc":
             self.a = arcs.QueueArc(number_of_timesteps=c["n"], **kw)
+        elif cls == "AltQueueArc":
+            self.a = arcs.AltQueueArc(number_of_timesteps=c["n"], **kw)
+        elif cls == "DecayArcAlt":
+            decs = {c["adds"][k]: {"constant": Ex(p[0]), "exponent": Ex(p[1])} for k, p in enumerate(c["dec"])}
+            self.a = arcs.DecayArcAlt(decays=decs, parent=self.inp, number_of_timesteps=c["n"], **kw)
         else:
             decs = {c["adds"][k]: {"constant": Ex(p[0]), "exponent": Ex(p[1])} for k, p in enumerate(c["dec"])}
             self.a = arcs.DecayArc(decays=decs, number_of_timesteps=c["n"], **kw)
@@ -175,12 +181,15 @@ class ArcRun:
         if self.queue:
             s["queue"] = [(int(r["time"]), cv(p, r["vqip"]), r["direction"]) for r in a.queue]
             s["decayed"] = cv(p, a.total_decayed) if hasattr(a, "total_decayed") else vzero(p)
+        if self.alt:
+            s["buckets"] = {int(k): cv(p, v) for k, v in a.queue.items()}
+            s["decayed"] = cv(p, a.total_decayed) if hasattr(a, "total_decayed") else vzero(p)
         return s
 
     def do(self, op):
         p, a, k = self.part, self.a, op[0]
         if k == "push":
-            if self.queue:
+            if self.queue or self.alt:
                 return cv(p, a.send_push_request(p.d(op[1]), force=op[2], time=op[3]))
             return cv(p, a.send_push_request(p.d(op[1]), force=op[2]))
         if k == "pull":
@@ -195,7 +204,7 @@ class ArcRun:
             a.end_timestep()
             return None
         if k == "ds":
-            if self.queue:
+            if self.queue or self.alt:
                 return cv(p, a.queue_arc_ds())
             return cv(p, a.mass_balance_ds[0]())
         if k == "setT":
@@ -203,7 +212,7 @@ class ArcRun:
             return None
 
 
-RUNNERS = {"tank": TankRun, "qtank": QTankRun, "arc": ArcRun, "qarc": ArcRun}
+RUNNERS = {"tank": TankRun, "qtank": QTankRun, "arc": ArcRun, "qarc": ArcRun, "altarc": ArcRun}
 
 
 def offer_cv(v):
@@ -294,7 +303,32 @@ def predicates(fam, cls, op, b, r, a, hist):
             if k == "pull" and r[0] > op[1]:
                 bad("C05", f"{cls}: pull returned {r[0]} > asked {op[1]}")
 
-    if fam in ("arc", "qarc"):
+    if fam == "altarc":
+        def aledger(s):
+            t = vzero_like(s["vin"])
+            for vv in s["buckets"].values():
+                t = vadd(t, vv)
+            return vsubt(vsubt(vsubt(s["vin"], s["vout"]), t), s["decayed"]), t
+        la, ta = aledger(a)
+        lb, tb = aledger(b)
+        if k == "end":
+            if la != tuple(-x for x in tb):
+                bad("C02", f"{cls}: close-out: in transit before {strs(tb)} != in transit after + close-out decay (ledger {strs(la)})")
+            want = {}
+            for kk, vv in b["buckets"].items():
+                tgt = max(kk - 1, 0)
+                want[tgt] = vadd(want.get(tgt, vzero_like(vv)), vv)
+            if cls == "AltQueueArc" and any(a["buckets"].get(kk, vzero_like(vv)) != vv for kk, vv in want.items()):
+                bad("C09", f"{cls}: close-out did not move every parcel exactly one step nearer (before {({k_: strs(v_) for k_, v_ in b['buckets'].items()})}, after {({k_: strs(v_) for k_, v_ in a['buckets'].items()})})")
+        elif not hist.get("tiny") and la != lb:
+            bad("C02", f"{cls}: {k}: in - out - transit - decayed moved from {strs(lb)} to {strs(la)}")
+        if k == "push" and hist.get("wet_op") and not hist.get("tiny_op"):
+            offer = offer_cv(op[1])
+            if vsubt(offer, r) != vsubt(a["vin"], b["vin"]):
+                bad("C04", f"{cls}: offer {strs(offer)} - reply {strs(r)} != recorded {strs(vsubt(a['vin'], b['vin']))}")
+            if a["out"] is not None and vsubt(a["out"], b["out"]) != vsubt(a["vout"], b["vout"]):
+                bad("C04", f"{cls}: receiver gained {strs(vsubt(a['out'], b['out']))} but the arc records delivery of {strs(vsubt(a['vout'], b['vout']))}")
+    if fam in ("arc", "qarc", "altarc"):
         forced = hist.get("forced")
         if not forced and not (0 <= a["fin"] <= a["cap"]):
             bad("C05", f"{cls}: admitted flow {a['fin']} outside [0, capacity {a['cap']}] after {k}")
@@ -430,7 +464,7 @@ def run_case(fam, c, pids, rep, stats):
             if k == "push":
                 hist["wet_op"] = is_wet(op[1])
                 hist["tiny_op"] = op[1][0] < EPS
-                if fam in ("arc", "qarc") and op[2]:
+                if fam in ("arc", "qarc", "altarc") and op[2]:
                     hist["forced"] = True
                 if hist["tiny_op"] and (op[1][0] > 0 or any(x != 0 for x in op[1][1])):
                     hist["tiny"] = True
@@ -523,7 +557,7 @@ def monitor(rep, pid, families, n, maxops, cases_extra=None):
 def unforce(fam, c):
     """nothing in the library forces a push through an ARC (only into stores): arc-level force is
     outside the quantifier of the arc clauses (a forced over-capacity push makes the spare capacity negative)"""
-    if fam in ("arc", "qarc"):
+    if fam in ("arc", "qarc", "altarc"):
         c = dict(c)
         c["ops"] = [(op[0], op[1], False, op[3]) if op[0] == "push" else op for op in c["ops"]]
     return c
